@@ -1,6 +1,7 @@
 import PhononModel.Model.Precision
 import Mathlib.Data.Rat.Floor
 import Mathlib.Tactic.Linarith
+import Mathlib.Tactic.Ring
 /-!
 Helper lemmas for property C16 (decimal print/parse): the printed integer is within one half
 of the scaled value.
@@ -26,5 +27,64 @@ theorem printK_close (k : Nat) (x : ℚ) : |((printK k x : ℤ) : ℚ) - x * 10 
       split
       · rw [abs_le]; constructor <;> linarith
       · push_cast; rw [abs_le]; constructor <;> linarith
+
+theorem digitsFuel_pos (f n : Nat) : 1 ≤ digitsFuel f n := by
+  cases f with
+  | zero => simp [digitsFuel]
+  | succ f => unfold digitsFuel; split <;> omega
+
+theorem digitsFuel_le (f : Nat) : ∀ (n d : Nat), n ≤ f → (digitsFuel f n ≤ d + 1 ↔ n < 10 ^ (d + 1))
+  := by
+  induction f with
+  | zero =>
+    intro n d hn
+    have : n = 0 := Nat.le_zero.mp hn
+    subst this
+    simp [digitsFuel]
+  | succ f ih =>
+    intro n d hn
+    unfold digitsFuel
+    by_cases h10 : n < 10
+    · simp only [h10, if_true]
+      constructor
+      · intro _; exact Nat.lt_of_lt_of_le h10 (by
+          calc 10 = 10 ^ 1 := by norm_num
+            _ ≤ 10 ^ (d + 1) := Nat.pow_le_pow_right (by norm_num) (by omega))
+      · intro _; omega
+    · simp only [h10, if_false]
+      have hdiv : n / 10 ≤ f := by omega
+      cases d with
+      | zero =>
+        have h1 := digitsFuel_pos f (n / 10)
+        constructor
+        · intro h; omega
+        · intro h; simp at h; omega
+      | succ d =>
+        have := ih (n / 10) d hdiv
+        constructor
+        · intro h
+          have h' : digitsFuel f (n / 10) ≤ d + 1 := by omega
+          have := this.mp h'
+          have e : 10 ^ (d + 1 + 1) = 10 ^ (d + 1) * 10 := by ring
+          rw [e]; omega
+        · intro h
+          have e : 10 ^ (d + 1 + 1) = 10 ^ (d + 1) * 10 := by ring
+          rw [e] at h
+          have : n / 10 < 10 ^ (d + 1) := by omega
+          have := (ih (n / 10) d hdiv).mpr this
+          omega
+
+theorem digits_le (n d : Nat) : digits n ≤ d + 1 ↔ n < 10 ^ (d + 1) :=
+  digitsFuel_le n n d (Nat.le_refl _)
+
+/-- the printed field leaves a blank in front (so that a neighbour written back to back stays
+separated) iff the integer part has at most `W - k - 2 - sign` digits -/
+theorem fits_iff (W k : Nat) (x : ℚ) (d : Nat)
+    (hW : W = (if x < 0 then 1 else 0) + (d + 1) + 1 + k + 1) :
+    fits W k x = true ↔ (printK k x).natAbs / 10 ^ k < 10 ^ (d + 1) := by
+  unfold fits printedLen
+  simp only [decide_eq_true_eq]
+  rw [← digits_le, hW]
+  constructor <;> intro h <;> omega
 
 end PhononModel.C16
